@@ -63,7 +63,7 @@ P = {
  "C12": dict(
   technique="property-based testing (proptest): sort-based order-statistic reference and validity predicates for partitions",
   text="Quantiles, percentile-of-score, ranks compared with a sort-based reference; partitions checked by a validity predicate (exact length k+1, multiset of the k+1 smallest/largest valid values, padding only at the end, sortedness when asked).",
-  note="(n-1)q within 8 u (n-1) of an integer accepts either neighbour (DESIGN 5.5; grid points nudged by 1e-13 / 1e-11 must be treated as off-grid). Partitions also run on non-nullable integer element types whenever k+1 <= len (no padding exists for them, 5.7); sub wide_integers shifts integer series beyond 2^53 (i64 / Option<i64>): ranks and partitions must be those of the offsets. For q = a/2^k without nudge the index is exact and only s[r] itself is accepted (q = 0 minimum, q = 1 maximum for every method).",
+  note="Sub vquantile:infinite_elements (about a third of the valid elements -inf / +inf) compares Lower / Higher with the exact order statistic. (n-1)q within 8 u (n-1) of an integer accepts either neighbour (DESIGN 5.5; grid points nudged by 1e-13 / 1e-11 must be treated as off-grid). Partitions also run on non-nullable integer element types whenever k+1 <= len (no padding exists for them, 5.7); sub wide_integers shifts integer series beyond 2^53 (i64 / Option<i64>): ranks and partitions must be those of the offsets. For q = a/2^k without nudge the index is exact and only s[r] itself is accepted (q = 0 minimum, q = 1 maximum for every method).",
   ref="6 C12, 5.5"),
  "C13": dict(
   technique="property-based testing (proptest): positional reference interpreter for shift/diff/pct_change/fill/clip/abs, algebraic laws (clip idempotence, containment)",
